@@ -45,8 +45,10 @@ CHECKS = {
          "Props/C18.lean: retained atoms are heavy (and bonded under exclusion); Geo.ofCoords is only evaluated at retained atoms; deleting the non-retained atoms (a strictly monotone renumbering of the retained ones, MonoRel) leaves every fingerprint equal (delete_floating_fingerprint_coords). Tied to the code by displacing hydrogens and floating atoms, deleting floating atoms, and checking floating atoms contribute when exclusion is off.",
          "Trusted: Lean kernel; RDKit invariants under atom deletion (assumed, exercised).", "DESIGN.md section 7 (C18)"),
  "C05": ("Lean 4 model of the CSR+names+props database with refinement theorems to a list of rows + differential correspondence on histories",
-         "Machine-checked theorems (Props/C05.lean) over the database model (matrix rows, names, separately maintained name index, property "
-         "columns): the invariant holds over every history, each operation's abstract effect is the list-of-rows effect, reads return no new state. "
+         "Machine-checked theorems (Props/C05.lean, Props/C05Hist.lean) over the database model (matrix rows, names, separately maintained name index, property "
+         "columns): history_refines / faithful_container - EVERY history of operations (new, add, from_array, subset, as_type, fold, concat, set_prop, update_props, pickle, savez+load) run on the "
+         "operational model yields, step by step, the same answers and the same abstract pool as the list-of-rows specification, the representation invariant holds in every reachable pool, and db[i] / db[name] "
+         "answer as the specification's rows do; the compiled driver runs model and specification side by side on every generated history. "
          "Tied to the code by dumping every live database after every step of seeded histories and comparing with the model, and by observing "
          "db[i], db[name], the name index and iteration against a plain list-of-rows oracle.",
          "Trusted: Lean kernel; SciPy CSR vstack/slicing/sum_duplicates, NumPy savez/load and pickle enter as their meaning and are compared on every run.",
@@ -57,7 +59,8 @@ CHECKS = {
          "feeding them to the model, and re-measuring the returned molecule independently (pairwise GetBestRMS, SMILES, input unmodified, seed repeat, generator reuse).",
          "Trusted: Lean kernel; RDKit embedding / force fields / GetBestRMS (numerical engines). Partial by nature: seed reproducibility and 'same molecule' are observed, not proved.",
          "DESIGN.md section 7 (C13)"),
- "C14": ("Lean 4 theorems on the pipeline model (first-N, conformer naming through the MolItemName regex, level keys) + differential correspondence + comparison with direct fingerprinting",
+ "C14": ("Lean 4 refinement theorem: the conformer loop of fprints_dict_from_mol on ONE reused fingerprinter object equals direct (fresh) fingerprinting of the first N conformers (composing the C04 history theorem and the C12 truncation theorem) + theorems on naming / first-N / level keys + differential correspondence of the whole returned dictionary",
+         "Props/C14Entry.lean: entry_eq_direct (for every option set, molecule, conformer list, name, `first` and all_iters the model of the entry point returns, key by key and conformer by conformer, the fingerprint a fresh fingerprinter computes, named <molecule>_<index>), entry_count, entry_names(_nodup), entry_prefix, entry_alliters_eq_limited (each level's list equals a separate run limited to that level). "
          "Props/C14.lean: the loop processes all conformers for first = -1 or >= n and exactly `first` otherwise; suffix-free names get `_<index>` (and the exclusion is necessary: example); level keys. "
          "Tied to the code by running fprints_from_mol / fprints_dict_from_mol (all_iters) / fprints_from_sdf / fprints_from_smiles / save+reload and comparing with per-conformer Fingerprinter runs.",
          "Trusted: Lean kernel; extract.py; RDKit SDF I/O, pickle/compression.", "DESIGN.md section 7 (C14)"),
